@@ -114,7 +114,8 @@ class C15(Check):
         # identifier that one dialect's grammar hangs directly under a re-cased node shows up in a single fixture
         for d in gens.dialects():
             for j, r in enumerate(gens.corpus(d, 1500)):
-                k = "upper" if j % 2 else "lower"
+                # the policy opposite to the file's prevailing letter case, so that as much as possible gets re-cased
+                k = "upper" if sum(ch.islower() for ch in r["sql"]) >= sum(ch.isupper() for ch in r["sql"]) else "lower"
                 yield {"dialect": d, "sql": r["sql"], "origin": r["name"], "rules": "capitalisation",
                        "policies": {"kw": k, "lit": k, "ident": k, "func": k, "type": k, "uip": "all"}}
 
